@@ -22,6 +22,7 @@ RULE = ('Hypothesis: a package/class selection drawn from the load table and a n
         '\\hspace / \\phantom arguments, user macro bodies, and in inline / displayed maths, comments, \\verb, \\LTskip, first argument of \\LTalter, LT-SKIP regions (never listed); '
         'definitions before / after first use; \\usepackage and \\documentclass inside the text. oracle: tex2txt(unkn=True) text == reference list joined by line breaks (ordered-set equality). '
         'non-trivial = an undeclared name occurs both in a hidden/maths context and in text, or a name is defined or its package loaded after its first use; distinct by (source, options)')
+RULE += ' Additions: footnotes attached to inline and displayed formulas as text contexts.'
 ASSUMPTIONS = [
     'catalogue of declared names = list-of-macros.md; names used in templates were cross-checked against it at start-up',
     'undeclared names are not placed in discarded arguments (keys, file names), in \\text inside maths or in removed environments: the statement makes no claim there',
